@@ -883,11 +883,15 @@ def replay(key, obligation, witness):
     w = witness or {}
     arrs = witness_arrays_to_numpy(w) if "arrays" in w else {}
     usable = all(a.size > 0 for a in arrs.values()) and any(k in arrs for k in ("arr", "values", "P"))
+    first = ""
     if "arr" in w or key.startswith("allowed_columns") or usable:
         try:
-            return _replay_once(key, obligation, w, arrs, None)
+            ok, first = _replay_once(key, obligation, w, arrs, None)
         except Exception as e:  # noqa: BLE001
             return True, f"the real code raises {type(e).__name__} on the witness: {str(e)[:300]}"
+        if ok or "arr" in w or key.startswith("allowed_columns"):
+            return ok, first
+        first = "solver witness not reproduced in floating point (" + first + "); "
     rng = np.random.default_rng(24)
     detail = "no replay for this obligation"
     for t in range(120):
@@ -896,8 +900,8 @@ def replay(key, obligation, witness):
         except Exception as e:  # noqa: BLE001
             ok, detail = True, f"the real code raises {type(e).__name__}: {str(e)[:300]}"
         if ok:
-            return True, f"(seeded search, trial {t}) " + detail
-    return False, "no small failing input found in 120 seeded trials; last: " + detail
+            return True, first + f"(seeded search, trial {t}) " + detail
+    return False, first + "no small failing input found in 120 seeded trials; last: " + detail
 
 
 def _replay_once(key, obligation, w, arrs, rng):
